@@ -95,8 +95,12 @@ Answer(vd, cd, names, m) ==
   ELSE AutoOptions(Allowed(vd, cd, names))                                              \* J3
 
 (* The handler is called with the request and the arguments captured from    *)
-(* the URL (V1: "the same as View.as_view()"): what the handler sees.        *)
-Seen(m, kw) == [method |-> m, kw |-> kw]
+(* the URL (V1: "the same as View.as_view()"): what the handler sees.  on =   *)
+(* "class" (Comp.as_view()) or "instance" (Comp(..).as_view(); CHANGELOG.md  *)
+(* v0.98: "When you call as_view() on a component instance, that instance    *)
+(* will be passed to View.as_view()"): inst = the handler runs on that very  *)
+(* instance.                                                                 *)
+Seen(m, kw, on) == [method |-> m, kw |-> kw, inst |-> (on = "instance")]
 
 (* ---- named deviation of the current tree (KNOWN_FINDINGS.txt): the View    *)
 (* class carries a generated handler for EVERY http method name that         *)
